@@ -639,3 +639,7 @@ def run(prop: str, tier_: str) -> int:
         "values must raise without output; distinct = distinct domain values driven",
         floor_ok=not missing and not idle and res.counters.get("out_of_domain_probes", 0) > 50,
     )
+
+
+def replay(prop: str, path: str) -> int:
+    return common.replay_by_rerun(prop, path, run)
